@@ -343,11 +343,13 @@ def w_bfs(item, rep):
 
 
 def run_pipe0(tier, seed, rep, cls_name="full", pid=PID, only=None):
-    depth = 6 if tier == "quick" else 16  # (the state space closes at depth 12..13: see notes in the evidence)
-    # quick: depth 6 for 5-byte addresses, 5 for the (larger) alphabets of address widths 4 and 3
-    items = [(cls_name, aw, seed, depth if (tier != "quick" or aw == 5) else depth - 1, pid, 0) for aw in (5, 4, 3)]
-    # the other half of the address arguments passed as re-used bytearrays (quick: 5-byte addresses, one level less)
-    items += [(cls_name, aw, seed, depth - 1 if tier == "quick" else depth, pid, 1) for aw in ((5,) if tier == "quick" else (5, 4, 3))]
+    # quick: depth 6 for 5-byte addresses, 5 for the (larger) alphabets of address widths 4 and 3; thorough: two levels more.
+    # (Before the operands SH / `other` and the power operations were added the thorough tier ran until the state space closed
+    # at depth 12..13; with them one address width no longer finishes within an hour on this machine, so the bound is stated.)
+    depth = 6 if tier == "quick" else 8
+    items = [(cls_name, aw, seed, depth if aw == 5 else depth - 1, pid, 0) for aw in (5, 4, 3)]
+    # the other half of the address arguments passed as re-used bytearrays (quick: 5-byte addresses only), one level less
+    items += [(cls_name, aw, seed, depth - 1, pid, 1) for aw in ((5,) if tier == "quick" else (5, 4, 3))]
     if only:
         items = [it for it in items if ("aw%d" % it[1]) in only]
     pmap(w_bfs, items, rep)
